@@ -28,10 +28,11 @@ def _make(wrapper_name):
             code = [c1, c2, c3, c4, c5, c6][:L]
             script = [a1, a2, a3, a4, a5, a6][:S]
             vals = [v1, v2, v3, v4, v5, v6]
-            only_shard(fork_int(c1, 0, genlab.NOPS - 1), P)
+            OPS = genlab.RICH_OPS
+            only_shard(fork_int(c1, 0, len(OPS) - 1), P)
             log0, log1 = [], []
-            t0 = genlab.drive(genlab.interp(code, log0), script, vals)
-            t1 = genlab.drive(wrap(genlab.interp(code, log1)), script, vals)
+            t0 = genlab.drive(genlab.interp(code, log0, ops=OPS), script, vals)
+            t1 = genlab.drive(wrap(genlab.interp(code, log1, ops=OPS)), script, vals)
             for e in t0:
                 if e[0] in ("closed-ok", "script-end-close"):
                     goal("closed")
@@ -65,10 +66,10 @@ def _fns():
 
 
 _SYM = ("program: L opcodes each in {yield, raise, return, yield-from sub-block, try/finally with a yield in finally, try/except with a "
-        "yield in the handler, end-of-block}, nesting depth <= 2; script: S driver actions each in {send symbolic int, throw Boom, "
+        "yield in the handler, end-of-block, try-block translating a thrown exception, try-block that catches and returns without yielding}, nesting depth <= 2; script: S driver actions each in {send symbolic int, throw Boom, "
         "throw RequestStop, close}; responses are arbitrary (symbolic) integers")
 _OUT = "programs longer than L / scripts longer than S; BaseException subclasses other than GeneratorExit thrown by the driver; processors that change messages (C21)"
-_T = {"quick": dict(L=4, S=4, shards=7, budget_s=240, per_path_s=20), "thorough": dict(L=5, S=5, shards=7, budget_s=3000, per_path_s=30)}
+_T = {"quick": dict(L=3, S=3, shards=9, budget_s=240, per_path_s=20), "thorough": dict(L=5, S=5, shards=9, budget_s=3000, per_path_s=30)}
 for _w in ("plan_mutator", "msg_mutator"):
     register(Harness(f"c20_{_w}", "C20", _make(_w), _T, goals=["closed", "raised", "returned", "finally-ran", "handler-ran"], functions=_fns,
                      symbolic=_SYM, out_of_bound=_OUT, require_exhaustive=True))
